@@ -21,10 +21,10 @@ pub(super) fn cypher_equals(left: &Value, right: &Value) -> Value {
 }
 
 fn float_equals_int(float_value: f64, int_value: i64) -> bool {
-    if float_value.is_nan() || !float_value.is_finite() {
-        return false;
-    }
-    float_value == int_value as f64
+    // Exact: `int_value as f64` rounds above 2^53 and would make `=` non-transitive
+    // (9007199254740993 = 9007199254740992.0 = 9007199254740992).
+    super::evaluator_compare::compare_int_with_float(int_value, float_value)
+        == Some(std::cmp::Ordering::Equal)
 }
 
 fn cypher_equals_sequence(left: &[Value], right: &[Value]) -> Value {
